@@ -27,7 +27,7 @@ var c19Docs = []struct{ name, text string }{
 	{"bad", "a: [\n"},
 	{"seq-of-maps", "- {a: v1, b: 42}\n- {a: w2, b: {n: deep9}}\n"},
 	{"attribute-key-with-a-map", "r:\n  +@id: {deep8: leaf9}\n  c: t7\n"}, // what the XML encoder takes for an attribute holds a map
-	{"seq-mixed", "- {a: v1, b: 42}\n- lone8\n- [k5, {z: q6}]\n"}, // rows of different kinds after a first row that is a map
+	{"seq-mixed", "- {a: v1, b: 42}\n- lone8\n- [k5, {z: q6}]\n"},         // rows of different kinds after a first row that is a map
 }
 
 var c19Exprs = []string{".", ".a", ".missing", "select(.a)", "false", "null", `select(document_index == 1) | error("boom")`, ".a + {}", "[.a]", ".a = (", ".c", ".[]"}
